@@ -43,6 +43,48 @@ pub fn run_axioms(ctx: &mut Ctx) {
     }
 }
 
+/// objects that differ only in member order, and objects that sort between them
+pub fn run_axioms_permuted(ctx: &mut Ctx) {
+    let name = "C07.axioms_permuted";
+    match check_permuted_axioms() {
+        Err(e) => ctx.violation(name, &json!({"universe": "permuted"}), &format!("cannot obtain the comparison matrices: {}", e)),
+        Ok((evals, errs)) => {
+            let n = PERMUTED.len();
+            let st = ctx.stats.entry(name.to_string()).or_default();
+            st.evaluations += evals as u64 + (n * n * n) as u64;
+            for i in 0..n * n {
+                st.nontrivial_hashes.insert(i as u64);
+            }
+            st.exhaustive = Some(format!("all {}^2 pairs x 4 order functions, all {}^3 triples, and 2 sorts x 3 arrival orders of {} objects that differ in member order or sort between such objects", n, n, n));
+            st.samples.push((0, json!({"check": name, "case": {"objects": &PERMUTED[..6]}, "observed": "matrices of < <= > >= from jawk; (sort_by ..) and --sort-by on three arrival orders"})));
+            if !errs.is_empty() {
+                ctx.violation(name, &json!({"universe": "permuted"}), &errs.iter().take(5).cloned().collect::<Vec<_>>().join(" | "));
+            }
+        }
+    }
+}
+
+pub struct C07AxiomsPermuted;
+impl Check for C07AxiomsPermuted {
+    type Case = CaseAx;
+    fn name(&self) -> &'static str {
+        "C07.axioms_permuted"
+    }
+    fn cases(&self, _t: Tier) -> u64 {
+        0
+    }
+    fn strategy(&self, _t: Tier) -> BoxedStrategy<CaseAx> {
+        Just(CaseAx { universe: "permuted".into() }).boxed()
+    }
+    fn check(&self, _c: &CaseAx) -> CaseResult {
+        match check_permuted_axioms() {
+            Err(e) => CaseResult::Fail(e),
+            Ok((_, errs)) if errs.is_empty() => CaseResult::Pass(Info::new(true)),
+            Ok((_, errs)) => CaseResult::Fail(errs.join(" | ")),
+        }
+    }
+}
+
 pub struct C07Axioms;
 #[derive(Clone, Debug, Serialize, Deserialize)]
 pub struct CaseAx {
@@ -506,16 +548,17 @@ impl Check for C07NasSort {
 }
 
 pub fn run_all(ctx: &mut Ctx) {
-    ctx.rule = "C07.axioms: the six comparison matrices over the whole universe are obtained from jawk and all pairs/triples are checked (exhaustive). C07.sortby: 0..40 records with 3 key fields from per-case pools of 1..5 universe values (or absent) x 1..3 --sort-by keys x ASC/DESC/omitted in random letter case and both syntaxes; non-trivial = at least two rows tie on the full key, two differ, and for multi-key sorts a tie on key 1 is broken by key 2. C07.functions: the six sort functions and their aliases on up to 160 elements/members; non-trivial = >= 3 elements with a tie and a difference. distinct = distinct cases by hash".into();
+    ctx.rule = "C07.axioms: the six comparison matrices over the whole universe are obtained from jawk and all pairs/triples are checked (exhaustive). C07.axioms_permuted: 20 objects that differ only in member order or sort between such objects: < <= > >= must be dual, complementary, total and transitive, and (sort_by ..) / --sort-by must be non-decreasing under that <= for three arrival orders (no use of =). C07.sortby: 0..40 records with 3 key fields from per-case pools of 1..5 universe values (or absent) x 1..3 --sort-by keys x ASC/DESC/omitted in random letter case and both syntaxes; non-trivial = at least two rows tie on the full key, two differ, and for multi-key sorts a tie on key 1 is broken by key 2. C07.functions: the six sort functions and their aliases on up to 160 elements/members; non-trivial = >= 3 elements with a tie and a difference. distinct = distinct cases by hash".into();
     ctx.assumptions = vec![
         "the order between two different objects is unspecified: jawk's own < matrix is used for it after it passed totality/antisymmetry/transitivity over the whole universe".into(),
         "universe numbers are < 2^53 in magnitude or non-integral, no -0, no member-order permutations (the property's quantifier)".into(),
     ];
     run_axioms(ctx);
+    run_axioms_permuted(ctx);
     C07SortBy.run(ctx);
     C07SortFn.run(ctx);
 }
 
 pub fn checks() -> Vec<Box<dyn DynCheck>> {
-    vec![Box::new(C07Axioms), Box::new(C07SortBy), Box::new(C07SortFn)]
+    vec![Box::new(C07Axioms), Box::new(C07AxiomsPermuted), Box::new(C07SortBy), Box::new(C07SortFn)]
 }
